@@ -41,15 +41,16 @@ class Abort(Exception):
 
 @contextlib.contextmanager
 def deadline(sec=4.0):
+    # CPU seconds of this process (ITIMER_VIRTUAL), not wall time: a loaded machine must not look like a hang
     def h(sig, frm):
         raise Hang()
-    old = signal.signal(signal.SIGALRM, h)
-    signal.setitimer(signal.ITIMER_REAL, sec)
+    old = signal.signal(signal.SIGVTALRM, h)
+    signal.setitimer(signal.ITIMER_VIRTUAL, sec)
     try:
         yield
     finally:
-        signal.setitimer(signal.ITIMER_REAL, 0)
-        signal.signal(signal.SIGALRM, old)
+        signal.setitimer(signal.ITIMER_VIRTUAL, 0)
+        signal.signal(signal.SIGVTALRM, old)
 
 
 def guarded(chk, entry, case, fn):
